@@ -80,3 +80,40 @@ wire_proofs!(Le16, u16, wire_le16, to_le_bytes);
 wire_proofs!(Be32, u32, wire_be32, to_be_bytes);
 wire_proofs!(Le64, u64, wire_le64, to_le_bytes);
 wire_proofs!(Be64, u64, wire_be64, to_be_bytes);
+
+// ... also when a whole array of wrappers is moved slice-to-slice (element count vs byte count)
+macro_rules! wire_array_proofs {
+    ($W:ident, $N:ident, $m:ident, $to_bytes:ident) => {
+        mod $m {
+            use super::*;
+            use crate::{Bytes, VolatileMemory, VolatileSlice};
+            #[kani::proof]
+            #[kani::unwind(10)]
+            pub fn array_of_wrappers_moves_as_wire_format() {
+                let v: [$N; 3] = kani::any();
+                let mut a = [0u8; 24];
+                let mut b = [0u8; 24];
+                {
+                    let sa = VolatileSlice::from(&mut a[..]);
+                    let sb = VolatileSlice::from(&mut b[..]);
+                    let arr = sa.get_array_ref::<$W>(0, 3).unwrap();
+                    let mut i = 0;
+                    while i < 3 { arr.store(i, $W::from(v[i])); i += 1; }
+                    arr.copy_to_volatile_slice(sb);
+                }
+                let mut i = 0;
+                while i < 3 {
+                    let want = v[i].$to_bytes();
+                    let mut k = 0;
+                    while k < size_of::<$N>() {
+                        assert!(b[i * size_of::<$N>() + k] == want[k], "C20,C04: an array of endian wrappers copied slice-to-slice must arrive as its wire-format bytes, every element whole");
+                        k += 1;
+                    }
+                    i += 1;
+                }
+            }
+        }
+    };
+}
+wire_array_proofs!(Le16, u16, wire_array_le16, to_le_bytes);
+wire_array_proofs!(Be32, u32, wire_array_be32, to_be_bytes);
